@@ -215,6 +215,11 @@ func (e *enc) havocCall(x *ssa.Call, callee *ssa.Function, args []Term) {
 }
 
 func (e *enc) havocLoc(l *Loc) {
+	if strings.HasPrefix(l.base, "H:") {
+		if ty, ok := e.memTy[l.base]; ok && e.readOnlyExt(ty) {
+			return // go/ast nodes are read-only data
+		}
+	}
 	if l.ty == nil {
 		e.havocKey(l.base)
 		return
@@ -401,7 +406,7 @@ func (e *enc) modularCall(x *ssa.Call, callee *ssa.Function, ct *Contract, args 
 		calleeInvs = e.ss.Invariants[callee.Pkg.Pkg.Path()]
 	}
 	for _, iv := range calleeInvs {
-		g, err := e.specBool(env, iv.E)
+		g, err := e.specBool(stateOnly(env), iv.E)
 		if err != nil {
 			continue
 		}
@@ -484,7 +489,7 @@ func (e *enc) modularCall(x *ssa.Call, callee *ssa.Function, ct *Contract, args 
 	// the package invariants hold again after the call (also for constructors, which establish them)
 	if callee.Pkg != nil {
 		for _, iv := range e.ss.Invariants[callee.Pkg.Pkg.Path()] {
-			if g, err := e.specBool(env2, iv.E); err == nil {
+			if g, err := e.specBool(stateOnly(env2), iv.E); err == nil {
 				e.assumeAt(g)
 			}
 		}
@@ -513,6 +518,25 @@ func (e *enc) havocSpecLoc(env *specEnv, x SExpr) error {
 				l := &Loc{base: key, ref: v.t, sort: e.so.of(pt.Elem()), ty: pt.Elem()}
 				e.havocLoc(l)
 				return nil
+			}
+			// *expr for any pointer-valued expression (e.g. *m[k]): the object it points to (evaluated in the pre-state)
+			v, err := e.specX(env, n.X)
+			if err != nil {
+				return err
+			}
+			if v.ty != nil {
+				if pt, ok := v.ty.Underlying().(*types.Pointer); ok {
+					key := e.heapKey(pt.Elem())
+					ref := e.define("modref", "Int", v.t)
+					if _, isStruct := pt.Elem().Underlying().(*types.Struct); isStruct {
+						// nothing is written through a nil pointer: the heap changes at ref only when ref is non-nil
+						oldHeap := e.mem[key]
+						l := &Loc{base: key, ref: ref, sort: e.so.of(pt.Elem()), ty: pt.Elem()}
+						e.havocLoc(l)
+						e.mem[key] = e.define("modheap", e.memSort[key], fmt.Sprintf("(ite (= %s 0) %s %s)", ref, oldHeap, e.mem[key]))
+						return nil
+					}
+				}
 			}
 		}
 	case *SIdent:
@@ -709,6 +733,10 @@ func (e *enc) invoke(x *ssa.Call) {
 				return
 			}
 			if src, ok := e.typeOfArg[tc]; ok {
+				if len(tc.Call.Args) == 1 && isGoAst(typeOfArgStatic(tc.Call.Args[0])) {
+					e.fr.val[x] = e.define("tyname", "String", e.goTypeNameOf(src))
+					return
+				}
 				e.fr.val[x] = e.define("tyname", "String", e.typeNameOf(src))
 				return
 			}
@@ -896,4 +924,45 @@ func (e *enc) dispatch(x *ssa.Call, recv Term) bool {
 	delete(fr.tuples, x)
 	e.setResult(x, sig, ts)
 	return true
+}
+
+// typeOfArgStatic: the static type of the value handed to reflect.TypeOf (looking through the conversion to `any`)
+func typeOfArgStatic(v ssa.Value) types.Type {
+	for d := 0; d < 4; d++ {
+		switch x := v.(type) {
+		case *ssa.ChangeInterface:
+			v = x.X
+			continue
+		case *ssa.MakeInterface:
+			v = x.X
+			continue
+		}
+		break
+	}
+	return v.Type()
+}
+
+// goTypeNameOf: reflect.TypeOf(v).String() for a go/ast node held in an interface: "*ast.<Type>"
+func (e *enc) goTypeNameOf(v Term) Term {
+	f := e.uf("GoTypeNameF", []string{"Int"}, "String")
+	g := e.uf("TagOfGoNameF", []string{"String"}, "Int")
+	tag := e.uf("dyntag", []string{"Int"}, "Int")
+	e.once("gotypename#ax", func() {
+		e.decls = append(e.decls, fmt.Sprintf("(assert (forall ((k Int)) (! (= (%s (%s k)) k) :pattern ((%s k)))))", g, f, f))
+		e.assumps["reflect.TypeOf(node).String() is \"*ast.<Type>\" for go/ast nodes; distinct types have distinct names"] = true
+		if p := e.w.ByPath["go/ast"]; p != nil && p.Types != nil {
+			sc := p.Types.Scope()
+			for _, n := range sc.Names() {
+				tn, ok := sc.Lookup(n).(*types.TypeName)
+				if !ok {
+					continue
+				}
+				if _, isStruct := tn.Type().Underlying().(*types.Struct); !isStruct {
+					continue
+				}
+				e.decls = append(e.decls, fmt.Sprintf("(assert (= (%s %d) \"*ast.%s\"))", f, e.typeTag(types.NewPointer(tn.Type())), n))
+			}
+		}
+	})
+	return fmt.Sprintf("(%s (%s %s))", f, tag, v)
 }
